@@ -19,7 +19,7 @@ func isStructLike(t types.Type) bool {
 			return true
 		}
 		if _, ok := u.Underlying().(*types.Struct); ok {
-			return !isOpaqueStruct(u)
+			return true
 		}
 		return false
 	case *types.Alias:
@@ -573,4 +573,12 @@ func describeVal(v Val) string {
 		s = s[:120] + "…"
 	}
 	return strings.ReplaceAll(s, "\n", " ")
+}
+
+// freshBytes: an unconstrained byte string (with the facts every []byte satisfies).
+func (x *Exec) freshBytes(st *State, hint string) string {
+	n := st.fresh(hint, SSeqI)
+	st.assume(app("g_isbytes", n))
+	st.assume(tAnd(tCmp("<=", "0", sLen(SSeqI, n)), tCmp("<=", sLen(SSeqI, n), maxLenLit)))
+	return n
 }
